@@ -51,9 +51,75 @@ direct_oracle = WC.direct_oracle
 classify = WC.classify
 
 
-def extra_legs(tier, seed):
+def race_leg(rounds):
+    """set_trickery_enabled(False) issued by thread B while thread A is inside the auto-detection
+    self-test (mode None) must win once both have finished: B's call returns after A's store (it
+    waits for the lock) or A's store must not happen.  The interleaving is forced with a trace
+    function on thread A (no monkeypatching)."""
+    import sys
+    import threading
+    from stackscope import _lowlevel as ll
+    import stackscope
+
+    code = ll._check_trickery_available.__code__
+    bad = []
+    saved = ll._can_use_trickery
     try:
-        from . import progs
-    except ImportError:
-        return {"evaluations": 0, "violations": [], "info": {"runtime_leg": "harness/progs.py not available yet"}}
-    return progs.leg_referents(tier, seed)
+        for r in range(rounds):
+            ll.set_trickery_enabled(None)
+            state = {"b": None, "fired": False}
+
+            def set_false():
+                ll.set_trickery_enabled(False)
+
+            def tracer(frame, event, arg):
+                if frame.f_code is code:
+                    def local(frame, event, arg):
+                        # inside the self-test: `noop_cm` exists once the detection has really begun
+                        if event == "line" and not state["fired"] and "noop_cm" in frame.f_locals:
+                            state["fired"] = True
+                            state["b"] = threading.Thread(target=set_false)
+                            state["b"].start()
+                            state["b"].join(0.15 + 0.05 * r)   # returns early iff the lock is not held
+                        return local
+                    return local
+                return None
+
+            def gen():
+                yield
+
+            def thread_a():
+                g = gen(); next(g)
+                sys.settrace(tracer)
+                try:
+                    stackscope.extract(g, with_contexts=True)
+                finally:
+                    sys.settrace(None)
+
+            ta = threading.Thread(target=thread_a)
+            ta.start(); ta.join(20)
+            if state["b"] is not None:
+                state["b"].join(20)
+            final = ll._check_trickery_available()
+            if state["fired"] and final is not False:
+                bad.append({"what": "set_trickery_enabled(False) issued while another thread was auto-detecting did not take "
+                                    "effect: later extractions still use trickery=%r" % (final,),
+                            "input": {"leg": "mode_race", "round": r}})
+                break
+            if not state["fired"]:
+                bad.append({"what": "mode_race leg could not reach the auto-detection self-test (source shape changed?)",
+                            "input": {"leg": "mode_race", "round": r}})
+                break
+    finally:
+        ll.set_trickery_enabled(saved)
+    return bad
+
+
+def extra_legs(tier, seed):
+    from . import progs
+    res = progs.leg_referents(tier, seed)
+    bad = race_leg(3 if tier == "quick" else 12)
+    res["evaluations"] = res.get("evaluations", 0) + (3 if tier == "quick" else 12)
+    res.setdefault("violations", []).extend(bad)
+    res.setdefault("info", {})["mode_race_rounds"] = 3 if tier == "quick" else 12
+    return res
